@@ -7,7 +7,9 @@ M  Local.tla: (1) the per-cell definitions and the laws the property states abou
    computed from its own cell.  With order 'C' (the code since fix ffb8ff0) this holds for EVERY layout
    assignment.  Negative twins: nditer's default order 'K' (the code before the fix) is REJECTED by TLC once
    Fortran-ordered / reversed layouts are admitted; IdentityIffNoScramble states the exact frontier of 'K'.
-R  rasters carrying the complete case space (every tuple x every ref, completeness asserted by TLC) for
+R  (also: datasets mixing integer and float layers in every data_vars order, and "near-tie" datasets - values
+   such as 1e6 / 1e6+1 or 0 / 5e-9, carried to TLC by rank - through the order-based operators)
+   rasters carrying the complete case space (every tuple x every ref, completeness asserted by TLC) for
    L = 2..4, in every memory layout, with data_vars orders / subsets, through all local operators; judged by
    Local_Judge.tla (definition per cell, NaN rule, frequency sum, combine numbering + key table).  np.nditer's
    real order is compared with the model for every layout assignment (drift).
@@ -130,6 +132,74 @@ def nditer_jobs(rng, tier):
     return jobs
 
 
+ORDER_FUNCS = ["max", "min", "lesser_frequency", "equal_frequency", "greater_frequency", "lowest_position",
+               "highest_position"]
+# near ties: values that are UNEQUAL but close (relative 1e-6 .. 1e-7, absolute 5e-9, or +-1 on a huge base).
+# An exact comparison must keep them apart; np.isclose-style comparisons do not.  (integral, table)
+NEAR_TIE_TABLES = [
+    (False, [-5e-9, 0.0, 5e-9, 1e-8, 1.0]),
+    (False, [0.0, 1.0 - 1e-7, 1.0, 1.0 + 1e-7, 1.0 + 2e-7, 2.0]),
+    (True, [999999.0, 1000000.0, 1000001.0, 1000002.0, 1000100.0]),
+    (False, [999999.9, 1000000.0, 1000000.1, 1000001.0]),
+    (True, [16777215.0, 16777216.0, 16777217.0, 16777218.0]),
+    (True, [999999999.0, 1000000000.0, 1000000001.0, 1000000002.0, 1000000064.0]),
+    (False, [1e9 - 100.0, 1e9, 1e9 + 0.5, 1e9 + 100.0, 1e9 + 150.0]),
+]
+
+
+def near_tie_jobs(rng, n_per_table):
+    """Layer and reference values drawn from a table of near ties; TLC gets the RANK of every value (the table
+    is increasing, so codes are order-isomorphic to the values): frequencies, positions, max/min and combine only
+    depend on order and equality.  The reference layer holds arbitrary table values, so rank / popularity (which
+    index with it) and the arithmetic statistics are not run on these datasets."""
+    jobs = []
+    for ti, (integral, table) in enumerate(NEAR_TIE_TABLES):
+        if any(a >= b for a, b in zip(table, table[1:])):
+            raise core.MachineryError("near-tie table %d is not strictly increasing" % ti)
+        for q in range(n_per_table):
+            L = rng.choice([2, 3, 4])
+            H, W = rng.choice([(4, 5), (3, 6), (5, 5)])
+            dtypes = [rng.choice(["int64", "float64"]) if integral else "float64" for _ in range(L)]
+            layers = []
+            for i in range(L):
+                pn = 0.08 if dtypes[i] == "float64" else 0
+                layers.append([[NAN if rng.random() < pn else rng.randrange(len(table)) for _ in range(W)]
+                               for _ in range(H)])
+            ref = [[rng.randrange(len(table)) for _ in range(W)] for _ in range(H)]
+            jobs.append({"H": H, "W": W, "L": L, "layers": layers, "ref": ref, "table": table, "dtypes": dtypes,
+                         "ref_dtype": rng.choice(["int64", "float64"]) if integral else "float64",
+                         "layouts": [rng.choice(C_LIKE + ("F",)) for _ in range(L)], "funcs": ORDER_FUNCS, "pop": False,
+                         "full": 0, "pairs": 1, "tag": "near_tie_table%d" % ti})
+    return jobs
+
+
+def mixed_dtype_jobs(rng, reps):
+    """Integer and float layers in one dataset, in EVERY order of data_vars (in particular an integer layer first
+    and a float layer with fractional values and NaN later), scale 1/2: float layers carry halves, integer layers
+    whole numbers.  All 14 operators."""
+    jobs = []
+    for L, kinds in ((2, ["int64", "float64"]), (3, ["int32", "float64", "float32"]), (3, ["int64", "int32", "float64"]),
+                     (4, ["int64", "float64", "int32", "float32"])):
+        for perm in sorted(set(itertools.permutations(kinds))):
+            for _ in range(reps):
+                H, W = rng.choice([(4, 6), (5, 4)])
+                layers = []
+                for dt in perm:
+                    if dt.startswith("float"):      # codes in halves: 0, 0.5, ..., 3, NaN
+                        layers.append([[NAN if rng.random() < 0.1 else rng.randrange(0, 7) for _ in range(W)]
+                                       for _ in range(H)])
+                    else:                           # whole numbers only (even codes)
+                        layers.append([[2 * rng.randrange(0, 4) for _ in range(W)] for _ in range(H)])
+                ref = [[rng.randrange(1, L + 1) for _ in range(W)] for _ in range(H)]
+                j = {"H": H, "W": W, "L": L, "layers": layers, "ref": ref, "dtypes": list(perm), "scale": 0.5,
+                     "layouts": [rng.choice(C_LIKE) for _ in range(L)], "full": 0, "pairs": 1,
+                     "tag": "mixed_dtypes_%s" % "+".join(perm)}
+                if rng.random() < 0.5:
+                    j["explicit_vars"] = False
+                jobs.append(j)
+    return jobs
+
+
 def random_jobs(rng, n):
     jobs = []
     for _ in range(n):
@@ -137,15 +207,14 @@ def random_jobs(rng, n):
         H, W = rng.choice([(3, 5), (5, 3), (4, 6), (7, 4), (6, 7), (2, 9), (1, 7), (8, 1)])
         scale = rng.choice([1, 1, 0.5, 0.25])      # dyadic: ref / scale stays an integer
         dtypes = [rng.choice(["float64", "float64", "float32", "int64", "int32"]) for _ in range(L)]
-        if scale != 1:
-            dtypes = [d if d.startswith("float") else "float64" for d in dtypes]
         hi = rng.choice([2, 3, 9])
+        step = int(round(1 / scale))                # integer layers hold whole numbers: codes in multiples of 1/scale
         layers = []
         for i in range(L):
             isf = dtypes[i].startswith("float")
             pn = rng.choice([0, 0.05, 0.2]) if isf else 0
-            layers.append([[NAN if rng.random() < pn else rng.randrange(-hi // 2, hi + 1) for _ in range(W)]
-                           for _ in range(H)])
+            layers.append([[NAN if rng.random() < pn else rng.randrange(-hi // 2, hi + 1) * (1 if isf else step)
+                            for _ in range(W)] for _ in range(H)])
         ref = [[rng.randrange(1, L + 1) for _ in range(W)] for _ in range(H)]
         style = rng.random()
         if style < 0.6:
@@ -309,6 +378,13 @@ def run(ctx):
     c = cases[len(cases) // 2]
     ctx.sample({"kind": "layouts", "tag": c["tag"], "layers": c["layers"], "ref": c["ref"], "strides": c["strides"],
                 "iter": c["iter"], "max": c["out"].get("max")})
+
+    jobs = mixed_dtype_jobs(rng, ctx.pick(1, 6)) + near_tie_jobs(rng, ctx.pick(6, 60))
+    ctx.note("R: %d datasets: mixed int/float dtypes in every data_vars order; near-tie values carried by rank" % len(jobs))
+    cases = observe(ctx, jobs, "replay_mixed_and_near_ties", tally, parallel=ctx.pick(2, 6))
+    c = [c for c in cases if c["tag"].startswith("near_tie")][0]
+    ctx.sample({"kind": "near_tie", "table": c["job"]["table"], "layers": c["layers"], "ref": c["ref"],
+                "equal_frequency": c["out"].get("equal_frequency")})
 
     # ------------------------------------------------------------------ T
     jobs = random_jobs(rng, ctx.pick(250, 4000))
